@@ -576,3 +576,285 @@ def _site_role(f, x):
         except ValueError:
             return member
     return site
+
+
+def rule_alloc_failure_propagated(ctx, chk, eng, rule='alloc-failure-propagated'):
+    """every call of an internal function that can fail for lack of memory is checked, and the failure edge
+    returns the out-of-memory indication of the enclosing function"""
+    from .failclean import failure_is_zero, zero_test
+    from .cfgutil import dominators
+    prog, irp = ctx.prog, ctx.irp
+    allocf, direct = alloc_functions(irp)
+    emalloc = prog.macros.get('URI_ERROR_MALLOC')
+    if emalloc is None:
+        raise AnalysisBroken('URI_ERROR_MALLOC not found')
+    chk.rule(rule, 'the result of every internal call that can report an allocation failure is tested, and every return in '
+             'the region dominated by its failure edge yields the enclosing function\'s out-of-memory value '
+             '(URI_ERROR_MALLOC for codes, FALSE/NULL otherwise, or the callee\'s code unchanged)', floor=80)
+    pub = prog.public_functions()
+    for name, f in sorted(irp.funcs.items()):
+        if name in EXEMPT_TYPESTATE or is_testing_only(prog, name) or f.unit.endswith('UriMemory.c'):
+            continue
+        dom = None
+        fa = None
+        for b in f.blocks:
+            for i in b.ins:
+                if i.op != 'call':
+                    continue
+                t = call_target(i)
+                if t is None or t not in allocf or t not in irp.funcs:
+                    continue
+                callee = irp.funcs[t]
+                if fa is None:
+                    fa = FuncAnalysis(eng, f, ())
+                summ = eng.summaries.get((t, fa.callee_ctx(b, callee, i.args)))
+                if summ is not None and not summ.allocs:
+                    continue       # no allocation is reachable in the context of this call
+                fz = failure_is_zero(callee)
+                if fz is None:
+                    continue       # void callee: cannot report
+                key = 'callsite:%s->%s' % (base_name(name), base_name(t))
+                if i.dst is None:
+                    chk.bad(rule, key, i.loc, '%s ignores the result of %s, which can fail for lack of memory' % (name, t), func=name)
+                    continue
+                var = i.dst.v
+                # the result must reach a branch in this block or be returned / stored in a variable that is
+                term = b.term
+                if term[0] == 'ret' and term[1] is not None and expr_key(term[1]) == var:
+                    chk.ok(rule, key, i.loc, 'result returned unchanged', func=name)
+                    continue
+                # find the branch testing var (possibly after a copy to a local)
+                names = {var}
+                for j in b.ins[b.ins.index(i) + 1:]:
+                    if j.op == 'assign' and expr_key(j.src) in names:
+                        names.add(expr_key(j.dst))
+                tested = None
+                if term[0] == 'br':
+                    zt = zero_test(term[1], prog)
+                    if zt and zt[0] in names:
+                        tested = (b, zt)
+                if tested is None:
+                    # look for a later branch on a named copy anywhere in the function
+                    for b2 in f.blocks:
+                        if b2.term[0] == 'br':
+                            zt = zero_test(b2.term[1], prog)
+                            if zt and zt[0] in names and not zt[0].startswith('%t'):
+                                tested = (b2, zt)
+                                break
+                if tested is None:
+                    used = False
+                    for b2 in f.blocks:
+                        if b2.term[0] == 'ret' and b2.term[1] is not None and expr_key(b2.term[1]) in names:
+                            used = True
+                    if used:
+                        chk.ok(rule, key, i.loc, 'result returned through a local', func=name)
+                    else:
+                        chk.bad(rule, key, i.loc, '%s never tests the result of %s' % (name, t), func=name)
+                    continue
+                tb, (zv, zero_when_true) = tested
+                fail_succ = tb.term[2] if (zero_when_true == fz) else tb.term[3]
+                if dom is None:
+                    dom = dominators(f)
+                if len(fail_succ.preds) != 1:
+                    # failure edge joins other paths directly: accept if the block returns a named copy of the code
+                    region = [fail_succ]
+                else:
+                    region = [x for x in f.blocks if fail_succ.id in dom[x.id]]
+                rets = [x for x in region if x.term[0] == 'ret']
+                ffz = failure_is_zero(f)
+                bad = None
+                for x in rets:
+                    e = x.term[1]
+                    cv = const_value(e, prog) if e is not None else None
+                    if e is None:
+                        continue
+                    if expr_key(e) in names:
+                        continue
+                    if cv is None:
+                        continue      # a code carried by a variable / the parser state: not a constant we can judge
+                    if ffz is False:
+                        if cv != emalloc:
+                            bad = (x.term[2], 'returns %s instead of URI_ERROR_MALLOC' % (pp.expr(e)))
+                    elif ffz is True:
+                        if cv != 0:
+                            bad = (x.term[2], 'returns %s instead of the failure value' % (pp.expr(e)))
+                if bad:
+                    chk.bad(rule, key, bad[0], '%s: after %s failed, %s' % (name, t, bad[1]), func=name)
+                else:
+                    chk.ok(rule, key, i.loc, 'tested; %d returns in the failure region conform' % len(rets), func=name)
+
+
+def copy_helpers(eng, irp):
+    """internal functions that may replace the text range they are handed by a block they allocate themselves"""
+    out = {}
+    pub = irp.prog.public_functions()
+    for name, f in irp.funcs.items():
+        s = eng.summary(name)
+        if s is None or name in pub:
+            continue
+        for k, vs in s.heap.items():
+            if not k[0].startswith('P:'):
+                continue
+            if k[1] not in ((), ('first',)):
+                continue
+            if any(v[0].startswith('F:%s:' % name) and v[1] == () for v in vs):
+                p = k[0][2:]
+                ty = f.param_types.get(p) or ''
+                if 'TextRange' in ty or (ty.count('*') == 2 and ('char' in ty or 'wchar_t' in ty)):
+                    out.setdefault(name, set()).add(f.params.index(p))
+    return out
+
+
+def range_class(arg):
+    """component class of a range argument such as &(uri->scheme.first), &(walker->text)"""
+    a = strip_casts(arg)
+    while a.k == 'cast':
+        a = strip_casts(a.c[0])
+    if a.k == 'un' and a.v == '&':
+        a = strip_casts(a.c[0])
+    names = []
+    n = a
+    while n.k in ('member', 'cast'):
+        if n.k == 'member':
+            names.append(n.v)
+        n = n.c[0]
+    names.reverse()
+    if names and names[-1] in ('first', 'afterLast'):
+        names = names[:-1]
+    return '.'.join(names) if names else None
+
+
+def rule_revert_protocol(ctx, chk, eng, rule='revert-protocol'):
+    from .failclean import failure_is_zero, zero_test
+    from .tables import MASK_BIT_OF_CLASS
+    prog, irp = ctx.prog, ctx.irp
+    emalloc = prog.macros.get('URI_ERROR_MALLOC')
+    helpers = copy_helpers(eng, irp)
+    if len(helpers) < 6:
+        raise AnalysisBroken('copy helpers not recognised (%s)' % sorted(helpers))
+    chk.rule(rule, 'in-place operations: once a copying helper has replaced a text range of the URI by a fresh block, every '
+             'failure return is reached only after the component\'s bit was added to the done-mask handed to the revert '
+             'routine, or after the block was freed locally; (the revert routine releases exactly the components whose bit '
+             'is set)', floor=20)
+    for name, f in sorted(irp.funcs.items()):
+        sites = []
+        for b in f.blocks:
+            for i in b.ins:
+                if i.op == 'call' and call_target(i) in helpers and name not in helpers:
+                    sites.append((b, i))
+        if not sites:
+            continue
+        ffz = failure_is_zero(f)
+        # forward dataflow: state = frozenset of uncovered classes; pending (var -> class) for untested helper results
+        start = (frozenset(), frozenset())
+        instates = {f.entry.id: {start}}
+        work = [f.entry]
+        viol = {}
+        classes_seen = set()
+        domi = None
+        while work:
+            b = work.pop()
+            outs = set()
+            for (unc, pend) in instates.get(b.id, ()):
+                for i in b.ins:
+                    if i.op == 'call':
+                        t = call_target(i)
+                        mc = manager_call(i)
+                        if t in helpers and name not in helpers:
+                            callee = irp.funcs[t]
+                            cls = None
+                            for pi in helpers[t]:
+                                if pi < len(i.args):
+                                    cls = range_class(i.args[pi])
+                            if cls is None:
+                                raise AnalysisBroken('cannot classify the range handed to %s at %s' % (t, fmt_loc(i.loc)))
+                            if cls not in MASK_BIT_OF_CLASS:
+                                raise AnalysisBroken('component class %s (at %s) is not in the B.5 table' % (cls, fmt_loc(i.loc)))
+                            classes_seen.add(cls)
+                            # helper that records the bit itself: a constant non-zero mask argument
+                            selfcov = False
+                            for p, a in zip(callee.params, i.args):
+                                if 'mask' in p.lower() and 'unsigned int' == (callee.param_types.get(p) or ''):
+                                    cv = const_value(a, prog)
+                                    bit = MASK_BIT_OF_CLASS.get(cls)
+                                    if cv is not None and bit is not None and cv == prog.enums.get(bit):
+                                        selfcov = True
+                            if not selfcov and i.dst is not None:
+                                pend = frozenset((v, c) for (v, c) in pend if v != i.dst.v) | {(i.dst.v, cls)}
+                            elif not selfcov:
+                                unc = unc | {cls}
+                        elif mc is not None and mc[0] == 'free' and len(i.args) > 1:
+                            c = range_class(i.args[1])
+                            if c in unc:
+                                unc = unc - {c}
+                    elif i.op == 'assign' and i.x and i.x.get('compound') == '|=':
+                        # M |= const : covers the classes whose bit is in const
+                        src = i.src
+                        cv = const_value(src.c[1], prog) if src.k == 'bin' else None
+                        if cv is not None:
+                            cov = set(c for c in unc if MASK_BIT_OF_CLASS.get(c) and (prog.enums.get(MASK_BIT_OF_CLASS[c], 0) & cv))
+                            unc = unc - cov
+                outs.add((unc, pend))
+            t = b.term
+            nxt = []
+            if t[0] == 'br':
+                zt = zero_test(t[1], prog)
+                for (unc, pend) in outs:
+                    done = False
+                    if zt is not None:
+                        for (v, c) in pend:
+                            if v == zt[0]:
+                                p2 = frozenset(x for x in pend if x[0] != v)
+                                for succ, truth in ((t[2], True), (t[3], False)):
+                                    is_zero = (zt[1] == truth)
+                                    u2 = unc if is_zero else unc | {c}
+                                    if is_zero and len(succ.preds) == 1:
+                                        # failure edge: classes freed locally inside the failure region
+                                        if domi is None:
+                                            from .cfgutil import dominators
+                                            domi = dominators(f)
+                                        for x in f.blocks:
+                                            if succ.id in domi[x.id]:
+                                                for j in x.ins:
+                                                    if j.op == 'call':
+                                                        mcj = manager_call(j)
+                                                        if mcj and mcj[0] == 'free' and len(j.args) > 1:
+                                                            u2 = u2 - {range_class(j.args[1])}
+                                    nxt.append((succ, (u2, p2)))
+                                done = True
+                                break
+                    if not done:
+                        nxt.append((t[2], (unc, pend)))
+                        nxt.append((t[3], (unc, pend)))
+            elif t[0] == 'ret':
+                for (unc, pend) in outs:
+                    e = t[1]
+                    cv = const_value(e, prog) if e is not None else None
+                    is_fail = False
+                    if ffz is False and cv is not None and cv != 0:
+                        is_fail = True
+                    if ffz is True and cv == 0:
+                        is_fail = True
+                    if is_fail:
+                        for c in unc:
+                            viol.setdefault(c, t[2])
+            else:
+                for st in outs:
+                    for s in b.succs():
+                        nxt.append((s, st))
+            for succ, st in nxt:
+                cur = instates.setdefault(succ.id, set())
+                if st not in cur:
+                    if len(cur) > 500:
+                        raise AnalysisBroken('revert-protocol state explosion in %s' % name)
+                    cur.add(st)
+                    if succ not in work:
+                        work.append(succ)
+        for c in sorted(classes_seen):
+            key = 'revert:%s/%s' % (base_name(name), c)
+            if c in viol:
+                chk.bad(rule, key, viol[c], '%s: a failure return is reachable while a fresh copy of component `%s` stored in '
+                        'the URI is neither covered by the done-mask (bit %s) nor freed locally: it leaks after the caller\'s '
+                        'cleanup' % (name, c, MASK_BIT_OF_CLASS.get(c)), func=name)
+            else:
+                chk.ok(rule, key, f.loc, '%s: component `%s` is covered at every failure return' % (name, c), func=name)
